@@ -362,6 +362,28 @@ def gen_world(rng, pr):
                          and info[i][0] + 1 <= pr.max_depth]
                 if not cands:
                     continue
+                if rng.random() < 0.4:
+                    # symmetric linear terms c*x*S and c.0*y*S (S shared, free of x and y): the raw partials
+                    # with respect to x and y are ==-equal expressions spelled differently
+                    v1, v2 = rng.sample(ord_vars, 2)
+                    cv = rng.choice([2, 3, -1, 4, -2, 5])
+                    co = [i for i in range(len(nodes)) if info[i][1] <= 8 and v1 not in info[i][2]
+                          and v2 not in info[i][2] and info[i][0] + 2 <= pr.max_depth]
+                    shared = [rng.choice(co)] if co and rng.random() < 0.7 else []
+                    f1 = [add({"op": "Constant", "value": cv}), var_ids[v1]] + shared
+                    f2 = [add({"op": "Constant", "value": float(cv)}), var_ids[v2]] + shared
+                    ks = [add({"op": "Multiply"}, f1), add({"op": "Multiply"}, f2)]
+                    if rng.random() < 0.3:
+                        ks.append(pick_kid())
+                    rng.shuffle(ks)
+                    cand = ({"op": "Add" if rng.random() < 0.8 else op}, ks)
+                    special = True
+                    node, kids = cand
+                    depth = 1 + max((info[k][0] for k in kids), default=0)
+                    size = 1 + sum(info[k][1] for k in kids)
+                    if depth <= pr.max_depth and size <= pr.max_size:
+                        pr.interesting.append(add(node, kids))
+                    continue
                 t = rng.choice(cands)
                 v1 = rng.choice(info[t][2])
                 others = [v for v in ord_vars if v != v1]
